@@ -366,6 +366,22 @@ def gen_cases(ctx):
                     yield {"mid": None, "params": None, "build": "parse", "arrivals": [[t, kind]], "tie": tie}
                     yield {"mid": None, "params": None, "build": "parse", "arrivals": [[t, kind]], "tie": tie,
                            "inject": "timer"}
+    # 1b. deadlines that do not fall on a poll boundary: arrivals around the deadline and up to the next poll boundary
+    for T in (0.3, 0.7, 1.3, 1.05):
+        nxt = (int(T / 0.5) + 1) * 0.5
+        for t in sorted({0.0, T - 0.1, T - EPS, T, T + EPS, T + 0.05, round((T + nxt) / 2, 3), nxt - EPS, nxt, nxt + EPS, 0.5 - EPS, 0.5}):
+            if t < 0:
+                continue
+            for kind in ("match_result", "match_error", "same_id_request", "other_response", "notification"):
+                for inject in ("task", "timer"):
+                    yield {"mid": None, "params": None, "build": "parse", "arrivals": [[round(t, 6), kind]], "timeout": T,
+                           "inject": inject, "tie": 1 if inject == "timer" else None}
+        # a distractor shifts the poll phase, then the response comes late
+        for shift in (0.2, 0.45):
+            yield {"mid": None, "params": None, "build": "parse", "timeout": T,
+                   "arrivals": [[shift, "notification"], [round(T + 0.1, 3), "match_result"]]}
+            yield {"mid": None, "params": None, "build": "parse", "timeout": T,
+                   "arrivals": [[shift, "other_response"], [round(T - 0.05, 3), "match_result"]]}
     # 2. all ordered pairs of kinds on coarse slots (t1<=t2)
     for k1, k2 in itertools.product(KINDS, repeat=2):
         for i, t1 in enumerate(coarse):
@@ -402,8 +418,10 @@ def exec_case(ctx, case: Dict[str, Any]) -> None:
 
     params = copy.deepcopy(case["params"])
 
+    T = case.get("timeout", TIMEOUT)
+
     async def call(r, w):
-        return await send_message(r, w, "tools/call", params, timeout=TIMEOUT,
+        return await send_message(r, w, "tools/call", params, timeout=T,
                                   message_id=case["mid"])
 
     async def main():
@@ -417,7 +435,7 @@ def exec_case(ctx, case: Dict[str, Any]) -> None:
         return
     mid = case["mid"]
     expect = {"method": "tools/call", "id": mid if mid else None, "params": case["params"]}
-    shape = check_history(ctx, case, obs, timeout=TIMEOUT, expect_request=expect)
+    shape = check_history(ctx, case, obs, timeout=T, expect_request=expect)
     ctx.record(case, shape=shape, nontrivial=bool(case["arrivals"]),
                cls=case["arrivals"][0][1] if len(case["arrivals"]) == 1 else f"len{min(len(case['arrivals']), 4)}",
                sample={"case": case, "observed": shape,
